@@ -144,6 +144,60 @@ func (w *World) Remove(f *Fake) {
 	w.C.RemoveReplica(f.Addr)
 }
 
+// SnapshotOp issues a volume snapshot and checks C13's per-call clauses:
+// an accepted snapshot exists on every replica the controller still lists as
+// RW, on all RF replicas when nothing was scripted to fail, and a replica that
+// took it without a fault is not detached for it.
+func (w *World) SnapshotOp(name, note string, failing, leaving *Fake) (string, error) {
+	s := w.rec(Step{K: "snapshot", Note: note, Addr: name})
+	preFs, preModes := w.Attached()
+	got, err := w.C.Snapshot(name)
+	if err != nil {
+		s.Res = err.Error()
+	}
+	if w.Dead {
+		return got, err
+	}
+	has := func(f *Fake) bool {
+		f.mu.Lock()
+		defer f.mu.Unlock()
+		for _, e := range f.Log {
+			if e.Kind == "s" && e.Name == name {
+				return true
+			}
+		}
+		return false
+	}
+	_, postModes := w.Attached()
+	took := 0
+	for _, f := range preFs {
+		if !has(f) {
+			continue
+		}
+		took++
+		if preModes[f] == types.RW && f != failing && f != leaving {
+			if m, ok := postModes[f]; !ok || m == types.ERR {
+				w.Fail("C13", "healthy-replica-detached:snapshot", fmt.Sprintf("%s took snapshot %s without error but is no longer attached when the call returns (%s)", f.Addr, name, note))
+				return got, err
+			}
+		}
+	}
+	w.Res.Count("snapshot_calls_checked", 1)
+	if err != nil {
+		return got, err
+	}
+	for f, m := range postModes {
+		if m == types.RW && !has(f) {
+			w.Fail("C13", "accepted-snapshot-missing-on-RW-replica", fmt.Sprintf("snapshot %s was accepted, %s is listed RW afterwards but never took it (%s)", name, f.Addr, note))
+			return got, err
+		}
+	}
+	if failing == nil && took != w.RF {
+		w.Fail("C13", "accepted-snapshot-on-fewer-than-RF", fmt.Sprintf("snapshot %s was accepted without any replica failing, but only %d of %d replicas took it (%s)", name, took, w.RF, note))
+	}
+	return got, err
+}
+
 // MonitorFail makes the monitor of f report a failure (ping timeout / dropped connection).
 func (w *World) MonitorFail(f *Fake, kill bool) {
 	w.rec(Step{K: "monitorfail", Addr: f.Addr, Note: fmt.Sprintf("kill=%v", kill)})
